@@ -96,7 +96,7 @@ impl ProvSpec {
                 None => ProvSpec::Fail(unknown.clone()).ref_answer(ask),
             },
             ProvSpec::Fail(ErrSpec::Sig(kind, _)) => {
-                let k = Kind::ALL.iter().find(|k| k.name() == kind.trim_end_matches("None")).copied();
+                let k = Kind::ALL.iter().find(|k| k.name() == kind.split(':').next().unwrap_or("").trim_end_matches("None")).copied();
                 Answer::Err(k.unwrap_or(Kind::InternalServiceError))
             }
             ProvSpec::Fail(_) => Answer::Foreign,
